@@ -318,3 +318,16 @@ Proof.
   - apply from_list_is_closed.
 Qed.
 
+
+(* ---- the model's [entries_of_origin] is the table read from resolve_package_required_entries ---- *)
+Definition rkind_of (e : rentry) : rkind :=
+  match e with
+  | RLocalAudit _ => RK_LocalAudit | RAudit _ _ => RK_Audit | RWildcard _ _ => RK_Wildcard | RPublisher _ => RK_Publisher
+  | RExemption _ => RK_Exemption | RUnpublished _ => RK_Unpublished | RFreshExemption _ => RK_FreshExemption
+  end.
+Definition imported_wildcard (o : origin) : bool := match o with OWildcard (Some _) _ _ => true | _ => false end.
+Lemma entries_follow_source o :
+  map rkind_of (entries_of_origin o) =
+  map fst (filter (fun '(_, only_if_imported) => negb only_if_imported || imported_wildcard o)
+                  (required_kinds_src (fst (okind_of (e_origin {| e_to := None; e_crit := 0; e_origin := o; e_fresh := Stale |}))))).
+Proof. destruct o as [| |[a|] ? ?| | | |]; reflexivity. Qed.
